@@ -59,7 +59,7 @@ from cfdppy.exceptions import (
 from cfdppy.mib import CheckTimerProvider, EntityType, RemoteEntityCfgTable
 from cfdppy.user import TransactionFinishedParams, TransactionParams
 
-from .common import _PositiveAckProcedureParams
+from .common import PacketDestination, _PositiveAckProcedureParams, get_packet_destination
 from .defs import (
     _FileParamsBase,
 )
@@ -401,11 +401,8 @@ class SourceHandler:
             raise InvalidTransactionSeqNum(
                 self._params.transaction_seq_num, packet.transaction_seq_num
             )
-        if packet.directive_type in [
-            DirectiveType.METADATA_PDU,
-            DirectiveType.EOF_PDU,
-            DirectiveType.PROMPT_PDU,
-        ]:
+        # This also covers ACK PDUs which acknowledge a Finished PDU.
+        if get_packet_destination(packet) == PacketDestination.DEST_HANDLER:
             raise InvalidPduForSourceHandler(packet)
         if self._params.transmission_mode == TransmissionMode.UNACKNOWLEDGED and (
             packet.directive_type in (DirectiveType.KEEP_ALIVE_PDU, DirectiveType.NAK_PDU)
